@@ -193,6 +193,8 @@ static void op_generate(long h, jwt_builder_t *b, const jwk_item_t *curkey_unuse
 	(void)curkey_unused;
 	printf("[\"G\",%ld,%" PRId64 ",", h, now);
 	vh_now = (time_t)now;
+	/* a third of the generates run on a clock that advances with every reading: iat, nbf and exp must come from one reading */
+	vh_tick = vh_below(&rng, 3) == 0 ? (time_t)(1 + vh_below(&rng, 3600)) : 0;
 	cb_ran = 0;
 	{
 		/* snapshots before */
@@ -202,6 +204,7 @@ static void op_generate(long h, jwt_builder_t *b, const jwk_item_t *curkey_unuse
 		jwt_set_GET_JSON(&v, NULL); jwt_builder_claim_get(b, &v); cb2 = v.json_val;
 		jwt_builder_error_clear(b);
 		tok = jwt_builder_generate(b);
+		vh_tick = 0;
 		vh_put_jstr(stdout, tok);
 		printf(",%d,%d,", jwt_builder_error(b), jwt_builder_error_msg(b)[0] != 0);
 		vh_put_jstr(stdout, hb); printf(","); vh_put_jstr(stdout, cb2); printf(",");
